@@ -30,8 +30,8 @@ TRUSTED_BASE = [
     "viz/renderer/*.py and viz/mermaid.py are not modelled: each drawing they produce is validated by Viz.viz_problems, whose "
     "soundness and completeness w.r.t. the declarative predicate Faithful is theorem C20_checker",
     "the transcription of nodesByState/edgesByState entries and of Mermaid source lines into Viz.drawing literals (harness/props/c20.py)",
-    "the ground-truth reader (Graph.nodes, Graph.nx_graph plus a data edge from every FURTHER producer of a shared output name, matched by name "
-    "in the harness; GraphNode._resolve_original_input_name / map_outputs_from_original)",
+    "the ground-truth reader (Graph.nodes, Graph.nx_graph, GraphNode._resolve_original_input_name / map_outputs_from_original); the data edges from "
+    "the FURTHER producers of a shared output name are added inside the model (VizProducers.complete_forest), name-matched graphs only",
 ]
 
 # --------------------------------------------------------------------------- generation
@@ -193,6 +193,24 @@ def gen_shared(rng):
     def F(name, ins, outs, emit=(), wait=()):
         return {"name": name, "kind": "func", "inputs": list(ins), "outputs": list(outs), "emit": list(emit), "wait_for": list(wait), "defaults": {}, "fn": ["sym", name]}
     nodes = []
+    if rng.random() < 0.25:
+        # two nested graphs with the SAME inner definition (node for node) as the exclusive branches of a gate
+        def pipeline(nm):
+            inner = [F("scale", ["x0"], ["scaled"]), F("shift", ["scaled"] + (["x1"] if two_in else []), ["shifted"])]
+            rng.shuffle(inner)
+            return {"name": nm, "kind": "graph", "graph": {"nodes": inner, "bound": {}, "entrypoints": None, "selected": None, "name": "pipeline"},
+                    "inputs": [], "outputs": [], "in_hist": [], "out_hist": []}
+        two_in = rng.random() < 0.5
+        st = rng.getstate()
+        first = pipeline("first")
+        rng.setstate(st)
+        second = pipeline("second")          # same inner node order as the first copy
+        nodes = [{"name": "g0", "kind": "ifelse", "inputs": ["c0"], "outputs": [], "emit": [], "wait_for": [], "defaults": {},
+                  "fn": ["glt", 1], "when_true": "first", "when_false": "second", "default_open": False},
+                 first, second, F("use", ["shifted"], ["z"])]
+        rng.shuffle(nodes)
+        ext = ["c0", "x0", "x1"]
+        return {"nodes": nodes, "bound": {}, "entrypoints": None, "selected": None, "ext": ext, "int_valued": list(ext)}
     if rng.random() < 0.7:
         k = rng.choice([2, 2, 3])
         br = [f"b{i}" for i in range(k)]
@@ -314,21 +332,8 @@ def truth(G, prefix=()):
             ent["hend"] = bd.get("when_true") == "END" or bd.get("when_false") == "END" or "END" in tv
         out.append(ent)
     edges = [(u, v, d.get("edge_type", "data"), list(d.get("value_names") or [])) for u, v, d in G.nx_graph.edges(data=True)]
-    # Graph.nx_graph draws a shared output name from its FIRST producer only; every further producer (an exclusive branch, an
-    # ordered second writer) feeds the same consumers and is a dependency all the same (name-matched graphs only)
-    if getattr(G, "_explicit_edges", None) is None:
-        have = {(u, v) for u, v, _, _ in edges}
-        for cname, c in G.nodes.items():
-            for p in c.inputs:
-                producers = [nm for nm, m in G.nodes.items() if p in m.outputs]
-                for src in producers[1:]:
-                    if (src, cname) in have:
-                        for k, e in enumerate(edges):
-                            if (e[0], e[1]) == (src, cname) and e[2] == "data" and p not in e[3]:
-                                edges[k] = (e[0], e[1], e[2], e[3] + [p])
-                    else:
-                        edges.append((src, cname, "data", [p]))
-                        have.add((src, cname))
+    # (Graph.nx_graph draws a shared output name from its FIRST producer only; the further producers' edges are added by the
+    #  model itself: VizProducers.complete_forest / complete_level, theorems C20_every_producer_has_an_edge / C20_only_matches_added)
     return out, edges
 
 
@@ -557,8 +562,10 @@ def observe(g):
 def emit_case(batch, i, g, ob):
     N, K = Names(), Names()
     T = ob["T"]
-    batch.add_def(i, "ts", c_list([c_tnode(N, t) for t in ob["tn"]]), "list tnode")
-    batch.add_def(i, "es", c_list([c_edge(N, e) for e in ob["te"]]), "list tedge")
+    batch.add_def(i, "ts0", c_list([c_tnode(N, t) for t in ob["tn"]]), "list tnode")
+    batch.add_def(i, "es0", c_list([c_edge(N, e) for e in ob["te"]]), "list tedge")
+    batch.add_def(i, "ts", "complete_forest $ts0", "list tnode")
+    batch.add_def(i, "es", "complete_level $ts0 $es0", "list tedge")
     batch.add_def(i, "ext", c_names(N, ob["ext"]), "list name")
     batch.add_def(i, "xp", c_list([c_nid(N, x.split("/")) for x in ob["expandable"]]), "list nid")
     # 10: to_flat_graph lists every nested node once, under its parent, in construction order
@@ -615,7 +622,7 @@ FAMILIES = ["dag", "dag", "gated", "gated", "endgates", "emit", "loop", "loop_sy
 
 def run(ctx):
     rng = ctx.rng
-    batch = CoqBatch("C20", ["Base", "Viz", "VizMaps"], shard=40, detail_limit=100000)
+    batch = CoqBatch("C20", ["Base", "Viz", "VizMaps", "VizProducers"], shard=40, detail_limit=100000)
     cases, infos = [], {}
     dist = {"family": {}, "depth": {}, "renamed": 0, "rejected": 0, "states": 0, "mermaid": 0, "interactive": 0}
     target = ctx.n(260, 2500)
@@ -733,7 +740,7 @@ def replay(ctx, rp):
     if not g:
         print("replay file carries no graph")
         return
-    batch = CoqBatch("C20r", ["Base", "Viz", "VizMaps"], shard=40)
+    batch = CoqBatch("C20r", ["Base", "Viz", "VizMaps", "VizProducers"], shard=40)
     ob = observe(g)
     N, K, tags, meta = emit_case(batch, 0, g, ob)
     res = batch.run(timeout=600)
